@@ -51,6 +51,16 @@ CHECKS = {
         technique="runtime node-by-node line monitor against the renderer's line map under LF/CRLF/CR, multi-line strings and Parser-reuse histories; fault injection at known lines with error.lineno and CLI '-->' marker monitors",
         text="Every CommandNode/ArgumentNode/ExpressionNode/list element line is compared with the line recorded by the renderer, including after histories of earlier parses on the same Parser object; single faults are injected at known positions of valid EEMS models and the lineno carried by the resulting error (and the line the CLI marks) must be the offending command's or argument's line.",
         note="The head 'Result = Command(' is kept on one line. For list arguments the argument-name line, the list's first line and the offending element's line are all accepted. Errors of an unexpected class are left to C12/C13."),
+    "C12": dict(
+        level="fault_enumeration", design="5/C12",
+        technique="single-fault enumeration over the command x parameter x wrong-kind matrix and all producer/consumer pairings, with an outcome monitor (error class + attributes) and a LOAD->PREPASS->EXEC phase monitor over execute()/file-system events",
+        text="For every built-in command of the CSV set a valid base model and every fault site on it are enumerated (missing/undeclared parameters, every wrong kind per declared type, unknown / non-data / wrong-fuzziness results, bad and relative paths, unknown command, duplicate result), the same faults are placed at random positions of random models with sinks, and producer/consumer pairings are predicted from the declarations. The rejection must be the specific error naming the offender, and the event log must show no execute() entry, no file-system write (audit hook + directory snapshot) and no finished command before it. Unfaulted models must not be rejected by an acceptance error.",
+        note="Acceptance rule restated in the harness from inputs/required/output/is_fuzzy declarations. String/Path parameters given lists or tuples are don't-care. NetCDF library set is covered for pairings only through shared basic/fuzzy commands."),
+    "C13": dict(
+        level="fault_enumeration", design="5/C13",
+        technique="API-boundary exception-type monitor over enumerated kind confusions, character-level text corruptions, CSV content faults, injected open() failures and run-time argument faults; CLI exit-status/stderr monitor for every MPilotError",
+        text="Whatever escapes Parser().parse, Program.from_source or Program.run is recorded; anything other than SyntaxError or an MPilotError is a violation (reported with the innermost mpilot frame). For MPilotErrors str(exc) must be computable and the command-line tool run on the same file must exit non-zero with the Problem/Solution text on stderr.",
+        note="Out of scope: non-UTF-8 command files, KeyboardInterrupt/MemoryError. The CLI's handling of SyntaxError is not specified by the property and not judged."),
 }
 
 PENDING = {}
